@@ -398,7 +398,7 @@ func (p *part) initState() *state {
 		for i, f := range p.A.Fams {
 			time.Sleep(time.Minute)
 			extra := url.Values{}
-			if f.Client == "pub" {
+			if f.Client == "pub" || f.Client == "plapsed" {
 				extra.Set("code_challenge", oidc.NewSHACodeChallenge(verifier))
 				extra.Set("code_challenge_method", "S256")
 			}
@@ -1344,7 +1344,9 @@ func TestCheck(t *testing.T) {
 	// i.e. histories of every length over the alphabet are covered.
 	runs := []run{{"", alphabet{Fams: famsQuick(), Callers: callersQuick(), Scopes: scopesQuick(),
 		Cids: cidsQuick, Chans: chansQuick, Lite: liteScopes, LiteChan: liteScopes}, 12, true}}
-	if c.Thorough() {
+	// Replay mode (always started with tier quick) uses the thorough runs: their alphabets are supersets
+	// of the quick one with the same initial states, and only the part named in the replay file is executed.
+	if c.Thorough() || c.ReplayFile != "" {
 		runs = []run{
 			// superset of the quick alphabet: more callers, more scope lists, request without refresh_token,
 			// more form client_id classes and channels, the token owner's client_id in every channel
